@@ -84,9 +84,10 @@ fn successors(m: &mut Machine, n: Node, reduce_irload_inputs: bool) -> (HashSet<
 
 pub fn run() {
     let mut ctx = Ctx::from_args("model_checking");
-    if ctx.replay_file.is_some() {
-        println!("C09 replays are graph facts; re-run the check (it takes seconds) to reproduce");
-        ctx.finish();
+    if let Some(f) = ctx.replay_file.clone() {
+        // C09's cases are facts about the whole control graph: the replay rebuilds the graph (a second) and
+        // reports every violation class again; the line of the file names the state / execution concerned
+        println!("replaying {}: {}", f, std::fs::read_to_string(&f).unwrap_or_default().lines().next().unwrap_or(""));
     }
     let _quick = ctx.quick();
     // ---- exploration (level-synchronous, parallel over the frontier) ----
